@@ -372,6 +372,14 @@ func (i *inserter[N]) cachedAggregator(
 			kind, stream.Aggregation, err,
 		)
 	}
+	if a, ok := stream.Aggregation.(AggregationBase2ExponentialHistogram); ok {
+		// A View function is not validated the way NewView validates its
+		// Stream: a MaxScale above 20 would index past the scale table on the
+		// first measurement, one below -10 yields scales outside the range.
+		if err := a.err(); err != nil {
+			return nil, 0, fmt.Errorf("creating aggregator with aggregation %v: %w", stream.Aggregation, err)
+		}
+	}
 
 	if _, drop := stream.Aggregation.(AggregationDrop); drop {
 		// A drop aggregation produces no stream. Do not let it occupy the
